@@ -13,7 +13,9 @@
     no_plain_creds_table             decision table canAuth / availableCaps / canStartTLS (64 rows)
     no_plain_creds                   along every plaintext run, in every segmentation, a credentials event implies
                                      InsecureAuth; and the handler never hands credentials over unless canAuth
-    preauth_refused                  PREAUTH greeting ⇒ NewStartTLS = error whatever follows, no further command
+    preauth_refused (+_new, _dial)   PREAUTH greeting ⇒ NewStartTLS and DialStartTLS = error whatever follows, no
+                                     further command; dial_without_check_counterexample: the state a constructor
+                                     without the check would hand out
     keep_counterexample, keep_client_counterexample
                                      the CVE-2011-0411 hand-over (not go-imap's) violates both switch theorems
   Validated by the oracle only (not modelled): crypto/tls rejecting a stream that starts with injected bytes
@@ -163,14 +165,17 @@ theorem no_plain_creds (c : Cfg) :
   rw [route_drain_eq_scan _ segs _ (by simp [RSt.init])]
   exact (scan_credInv c _ _ (credInv_init c)).2.2
 
-/-- A client that upgrades refuses a pre-authenticated greeting: whatever follows `* PREAUTH text` (the
+/-- A client that upgrades — through either constructor, `NewStartTLS` or `DialStartTLS` — refuses a
+    pre-authenticated greeting: whatever follows `* PREAUTH text` (the
     tagged OK, injected responses, anything) in whatever segmentation, with or without a handshake,
     NewStartTLS returns an error, and it puts no further command on the wire. -/
-theorem preauth_refused (tag w rest : Bytes) (segs : List Bytes) (hs : Bool)
+theorem preauth_refused (k : Ctor) (tag w rest : Bytes) (segs : List Bytes) (hs : Bool)
     (hw : Word w) (hcode : w.head? ≠ some 91) (hflat : segs.flatten = preauthLine w ++ rest) :
-    (runClient .drain tag segs hs).result = .error ∧ furtherCommands (runClient .drain tag segs hs).r.st = [] := by
+    (runClient .drain k tag segs hs).result = .error ∧ furtherCommands (runClient .drain k tag segs hs).r.st = [] := by
   refine ⟨?_, rfl⟩
-  show newStartTLS (route .drain clientExec (RSt.init (cliInit tag)) segs).st = .error
+  show construct k (route .drain clientExec (RSt.init (cliInit tag)) segs).st = .error
+  have hk : ∀ s, construct k s = newStartTLS s := by intro s; cases k <;> rfl
+  rw [hk]
   apply newStartTLS_refusing
   rw [route_drain_eq_scan _ segs _ (by simp [RSt.init]), hflat, scan_append]
   apply scan_refusing
@@ -199,6 +204,25 @@ def lineLogin : Bytes := [98, 32, 76, 79, 71, 73, 78, 32, 117, 32, 112, 13, 10] 
 def lineGreet : Bytes := [42, 32, 79, 75, 32, 104, 105, 13, 10]                     -- "* OK hi\r\n"
 def lineT1OK : Bytes := [84, 49, 32, 79, 75, 32, 103, 111, 13, 10]                  -- "T1 OK go\r\n"
 def line5Exists : Bytes := [42, 32, 53, 32, 69, 88, 73, 83, 84, 83, 13, 10]         -- "* 5 EXISTS\r\n"
+
+/-- the two constructors instantiated -/
+theorem preauth_refused_new (tag w rest : Bytes) (segs : List Bytes) (hs : Bool)
+    (hw : Word w) (hcode : w.head? ≠ some 91) (hflat : segs.flatten = preauthLine w ++ rest) :
+    (runClient .drain .newStartTLS tag segs hs).result = .error :=
+  (preauth_refused .newStartTLS tag w rest segs hs hw hcode hflat).1
+
+theorem preauth_refused_dial (tag w rest : Bytes) (segs : List Bytes) (hs : Bool)
+    (hw : Word w) (hcode : w.head? ≠ some 91) (hflat : segs.flatten = preauthLine w ++ rest) :
+    (runClient .drain .dialStartTLS tag segs hs).result = .error :=
+  (preauth_refused .dialStartTLS tag w rest segs hs hw hcode hflat).1
+
+/-- Non-example: a `DialStartTLS` that calls `New` + `startTLS` itself and returns the client as soon as
+    the command completed (no state check) hands out an authenticated client on `* PREAUTH` + tagged OK -/
+theorem dial_without_check_counterexample :
+    let r := route .drain clientExec (RSt.init (cliInit [84, 49]))
+      [[42, 32, 80, 82, 69, 65, 85, 84, 72, 32, 104, 105, 13, 10] ++ lineT1OK]
+    r.st.result = some .ok ∧ r.st.state = .auth ∧ construct .dialStartTLS r.st = .error := by
+  decide
 
 /-- Non-example (NOT go-imap's behaviour): a reader that is not drained at the switch executes a
     LOGIN pipelined in the segment of the STARTTLS line, and accepts the credentials as if they had
